@@ -137,6 +137,25 @@ def eval_case(case):
     name, kwargs = case.get('deformation'), case.get('kwargs', {})
     code = domain.build_code(cls, size)
     n = code.n
+    # another model that is easily mistaken for this one is used first on the
+    # same code object and rate: same deformation name along another axis, or
+    # a direction that agrees to five decimals (bias 1e5 against pure noise)
+    sib = case.get('sibling')
+    if sib:
+        if sib == 'axis' and name == 'XZZX' and cls in domain.AXES:
+            other = [a for a in domain.AXES[cls] if a != (kwargs or {}).get(
+                'deformation_axis', domain.DEFAULT_AXIS.get(cls))]
+            sib_em = PauliErrorModel(*r, deformation_name=name,
+                                     deformation_kwargs={'deformation_axis': other[0]}) if other else None
+        else:
+            j = int(np.argmax(r))
+            r2 = [float(x) for x in r]
+            k2 = (j + 1) % 3
+            r2[j], r2[k2] = r2[j] - 4e-6, r2[k2] + 4e-6
+            sib_em = PauliErrorModel(*r2, deformation_name=name, deformation_kwargs=dict(kwargs))
+        if sib_em is not None:
+            sib_em.error_probability(np.zeros(2 * code.n, dtype=np.uint8), code, p)
+            sib_em.probability_distribution(code, p)
     em = PauliErrorModel(*r, deformation_name=name, deformation_kwargs=dict(kwargs))
     t = table(code, r, p, name, kwargs)
     rng = np.random.default_rng(case['rseed'])
@@ -266,7 +285,8 @@ def eval_case(case):
         f['detail'] = f"{cls}{size} r={r} p={p} {name} {kwargs}: " + f['detail']
     labels = [case['kind'], 'ry>0' if r[1] > 0 else 'ry=0',
               'deformed-noise' if name else 'plain-noise',
-              'p-end' if p in (0, 1) else 'p-interior']
+              'p-end' if p in (0, 1) else 'p-interior'] + (
+        ['after-sibling-model:' + sib] if sib else [])
     return {'fails': fails, 'nontrivial': nt, 'labels': labels, 'evals': evals}
 
 
@@ -281,6 +301,7 @@ def cases(draw, kind='exhaustive'):
             'direction': domain.as_given(draw, r), 'error_rate': domain.as_given(draw, [p])[0],
             'deformation': name, 'kwargs': kw, 'n_errors': 24,
             'metropolis': draw(st.booleans()),
+            'sibling': draw(st.sampled_from([None, None, 'axis', 'direction'])),
             'rseed': draw(st.integers(0, 2**30))}
 
 
